@@ -42,7 +42,7 @@ def ops_for(root, rng):
     def safe(f):
         def g():
             try:
-                return ("ok", f())
+                return ("ok", impl.limited(f))
             except Exception as e:
                 return ("raised", type(e).__name__)
         return g
